@@ -46,7 +46,7 @@ fn gen_patterns(r: &mut Rng, paths: &[String]) -> Vec<String> {
         if special(name) || special(path) {
             continue;
         }
-        let p = match r.below(12) {
+        let p = match r.below(16) {
             0 => name.to_string(),
             1 => format!("/{name}"),
             2 if path != "/" => path.clone(),
@@ -62,6 +62,11 @@ fn gen_patterns(r: &mut Rng, paths: &[String]) -> Vec<String> {
                 format!("{}/{}", comps[comps.len() - 2], comps[comps.len() - 1])
             }
             10 => format!("{first}?"),
+            // outside the reference grammar (`**` glued to text, braces): only the
+            // differential core backup = list = restore is checked for these
+            12 => format!("{name}**"),
+            13 => format!("/{first}**"),
+            14 => format!("{{{name},zzz}}"),
             _ => format!("/{first}*"),
         };
         out.push(p);
@@ -203,7 +208,11 @@ fn execute(sc: &Scenario, acc: &mut Acc) -> Result<Vec<Violation>, String> {
     if b != c {
         out.push(Violation::new(prop, "list_and_restore_agree", if b.len() > c.len() { "list_keeps_more" } else { "restore_keeps_more" }, format!("patterns {pats:?}: list vs restore: {}", diff(&b, &c))));
     }
-    if a != d {
+    let outside_grammar = pats.iter().any(|p| p.contains('{') || p.split('/').any(|c| c.contains("**") && c != "**"));
+    if outside_grammar {
+        acc.hit("pattern_outside_reference_grammar");
+    }
+    if a != d && !outside_grammar {
         out.push(Violation::new(prop, "backup_matches_reference_rule", if a.len() > d.len() { "keeps_more_than_rule" } else { "drops_more_than_rule" }, format!("patterns {pats:?}: backup vs rule: {}", diff(&a, &d))));
     }
     Ok(out)
